@@ -70,10 +70,25 @@ C02 = {"calls": 0, "plan": []}
 C02_BIG = 999_999_999  # token of "some content that is not one of the writer's constants"
 
 
+C02_NAN, C02_INF, C02_NINF = 900_000_001, 900_000_002, 900_000_003  # arrays with a NaN / +inf / -inf entry
+
+
+def _c02_special(shape, k, dtype=float):
+    a = np.full(shape, 1.0, dtype=dtype)
+    a.flat[0] = {C02_NAN: np.nan, C02_INF: np.inf, C02_NINF: -np.inf}[k]
+    if a.size > 2:
+        a.flat[-1] = a.flat[0]
+    return a
+
+
 def _c02_tok(a):
     if a is None:
         return None
     a = np.asarray(a)
+    if a.dtype.kind == "f" and a.size and not bool(np.all(np.isfinite(a))):
+        if bool(np.any(np.isnan(a))):
+            return C02_NAN
+        return C02_INF if bool(np.any(np.isposinf(a))) else C02_NINF
     if a.size and bool(np.all(a == a.flat[0])):
         v = float(a.flat[0])
         if v.is_integer() and 0 <= v < 10**6:
@@ -119,6 +134,13 @@ def c02_apply(detector, ops) -> None:
             if k is not None:
                 s.data["/tok"] = xr.DataTree(xr.Dataset({"v": int(k)}))
             detector.scene = s
+        elif k in (C02_NAN, C02_INF, C02_NINF) and b in ("photon", "pixel", "signal", "charge"):
+            a = _c02_special(shape, k)
+            if b == "charge":
+                detector.charge.empty()
+                detector.charge.add_charge_array(a)
+            else:
+                getattr(detector, b).array = a
         elif b == "photon":
             if k is None:
                 detector.photon.empty()
@@ -385,10 +407,13 @@ def c03_apply(detector, ops) -> None:
                 detector.photon.array = arr
             else:
                 getattr(detector, b).array = arr
-        elif kind == "set3d":  # ["set3d", dtype, wavelengths, flat values]  (multi-wavelength photon)
-            _, dt, wl, vals = op
+        elif kind == "set3d":  # ["set3d", dtype, wavelengths, flat values[, {"y": labels, "x": labels}]]  (multi-wavelength photon)
+            dt, wl, vals = op[1], op[2], op[3]
             arr = np.array(vals, dtype=np.dtype(dt)).reshape(len(wl), rows, cols)
-            detector.photon.array_3d = xr.DataArray(arr, dims=["wavelength", "y", "x"], coords={"wavelength": wl})
+            coords = {"wavelength": wl}
+            if len(op) > 4 and op[4]:  # a cube that carries its own row / column labels (cut-out, sky units)
+                coords.update({k: list(v) for k, v in op[4].items()})
+            detector.photon.array_3d = xr.DataArray(arr, dims=["wavelength", "y", "x"], coords=coords)
         elif kind == "add":  # ["add", bucket, k]  in-place accumulation on an initialised bucket
             _, b, k = op
             c = getattr(detector, b)
@@ -432,6 +457,12 @@ def c03_apply(detector, ops) -> None:
             ids = [int(i) for i, r, q in zip(fr.index, rr, qq) if r * cols + q == int(op[1])]
             if ids and len(ids) < len(fr):
                 ch.remove_from_frame(ids)
+        elif kind == "cl_remove_all":  # ["cl_remove_all", how]  every cluster removed
+            ch = detector.charge
+            if op[1] == "ids":
+                ch.remove_from_frame([int(i) for i in ch.frame.index])
+            else:
+                ch.remove_from_frame()
         elif kind == "collect":  # ["collect"]  what simple_collection does
             detector.pixel.array += detector.charge.array
         elif kind == "scene":  # ["scene", k[, wavelengths]]  put a source into the scene
@@ -483,3 +514,43 @@ def c18_snapshot(detector, tag: str = "") -> None:
         snap[name] = None if arr is None else np.array(arr, copy=True)
     snap["charge"] = np.array(detector.charge.array, copy=True)
     LOG.append(("c18", str(tag), snap))
+
+
+def cal_probe_det(detector, **kwargs) -> None:
+    """C10: like `cal_probe`, and additionally logs the detector fields a calibration may target
+    (`@temperature`, `@fwc`) as the model sees them when it runs."""
+    seen = dict(kwargs)
+    seen["@temperature"] = detector.environment.temperature
+    seen["@fwc"] = detector.characteristics.full_well_capacity
+    LOG.append(("cal", canon_kwargs(seen), int(detector.pipeline_count)))
+    rows, cols = detector.geometry.shape
+    s = 0.0
+    for v in kwargs.values():
+        if isinstance(v, str | bool) or v is None:
+            continue
+        s += float(np.sum(np.asarray(v, dtype=float)))
+    data = np.arange(rows * cols, dtype=float).reshape(rows, cols) + 100.0 * detector.pipeline_count + s
+    detector.photon.array = np.clip(data, 0.0, None)
+    detector.charge.add_charge_array(data)
+    detector.pixel.array = data.copy()
+    detector.signal.array = data.copy()
+    detector.image.array = np.asarray(np.clip(np.floor(data), 0, 2**31), dtype="uint32")
+
+
+def cal_probe_temp(detector, **kwargs) -> None:
+    """C11: like `cal_probe`, with the detector's temperature entering the data: every bucket is
+    `base + s + (temperature - 200)` — so that per-target input arguments addressing a *detector* field
+    (not only model arguments) change what is simulated."""
+    LOG.append(("cal", canon_kwargs(kwargs), int(detector.pipeline_count)))
+    rows, cols = detector.geometry.shape
+    s = float(detector.environment.temperature) - 200.0
+    for v in kwargs.values():
+        if isinstance(v, str | bool) or v is None:
+            continue
+        s += float(np.sum(np.asarray(v, dtype=float)))
+    data = np.arange(rows * cols, dtype=float).reshape(rows, cols) + 100.0 * detector.pipeline_count + s
+    detector.photon.array = np.clip(data, 0.0, None)
+    detector.charge.add_charge_array(data)
+    detector.pixel.array = data.copy()
+    detector.signal.array = data.copy()
+    detector.image.array = np.asarray(np.clip(np.floor(data), 0, 2**31), dtype="uint32")
